@@ -305,4 +305,237 @@ theorem rotation_sums (lang : Lang) (sym : Nat) (cd gd : NodeData) (gs cs : List
     rw [hC'c.1, hC'd, hC's.2.2.2, hGc.1, hG.2.2.2.2.2, hGs.2.2.2, sum_dropLast _ gs gp hgl]
     simp only [sumC]; omega
 
+
+/-! ## `ts_subtree_compress` keeps the face of the tree -/
+
+theorem allSym_mk (lang : Lang) (sym : Nat) (d : NodeData) (kids : List Tree) :
+    allSym lang sym (.mk d kids) = ((d.symbol != sym || kids.isEmpty || rotP lang d) && allSymL lang sym kids) := by
+  rw [allSym]
+
+theorem allSymL_cons (lang : Lang) (sym : Nat) (c : Tree) (rest : List Tree) :
+    allSymL lang sym (c :: rest) = (allSym lang sym c && allSymL lang sym rest) := by
+  rw [allSymL]
+
+theorem allSymL_append (lang : Lang) (sym : Nat) : ∀ (a b : List Tree), allSymL lang sym (a ++ b) = (allSymL lang sym a && allSymL lang sym b)
+  | [], b => by simp [allSymL]
+  | c :: a, b => by simp [allSymL_cons, allSymL_append lang sym a b, Bool.and_assoc]
+
+theorem allSymL_dropLast (lang : Lang) (sym : Nat) (l : List Tree) (x : Tree) (h : l.getLast? = some x)
+    (ha : allSymL lang sym l = true) : allSymL lang sym l.dropLast = true ∧ allSym lang sym x = true := by
+  have := dropLast_append_getLast l x h
+  rw [← this, allSymL_append] at ha
+  simp only [allSymL_cons, Bool.and_eq_true] at ha
+  exact ⟨ha.1, ha.2.1⟩
+
+theorem rotP_summarize (lang : Lang) (init : Length) (d : NodeData) (kids : List Tree) : rotP lang (summarize lang init d kids) = rotP lang d := by
+  have := summarize_static lang init d kids
+  simp only [rotP, this.2.1, this.2.2.1, this.2.2.2.2.1, this.2.2.2.2.2.1]
+
+theorem allSym_resummarize (lang : Lang) (sym : Nat) (d : NodeData) (kids : List Tree) :
+    allSym lang sym (resummarize lang (.mk d kids)) = allSym lang sym (.mk d kids) := by
+  cases kids with
+  | nil => simp [resummarize]
+  | cons c rest =>
+    simp only [resummarize, allSym_mk, rotP_summarize, (summarize_static lang length_zero d (c :: rest)).1]
+
+theorem allSymL_resummarizeLast (lang : Lang) (sym : Nat) : ∀ (l : List Tree), allSymL lang sym (resummarizeLast lang l) = allSymL lang sym l
+  | [] => rfl
+  | [c] => by
+    obtain ⟨d, k⟩ := c
+    simp only [resummarizeLast, allSymL_cons, allSym_resummarize]
+  | c :: c' :: rest => by
+    simp only [resummarizeLast, allSymL_cons]
+    rw [allSymL_resummarizeLast lang sym (c' :: rest)]
+
+/-- Re-summarizing a summarized node does not change its face. -/
+theorem face_resummarize_summ (lang : Lang) (c : Tree) (h : Summarized lang c) : face (resummarize lang c) = face c := by
+  obtain ⟨d, kids⟩ := c
+  cases kids with
+  | nil => simp [resummarize]
+  | cons k rest =>
+    have hn := ((summarized_mk lang d (k :: rest)).mp h).2.1 (by simp)
+    unfold NodeOK at hn
+    have hst := summarize_static lang length_zero d (k :: rest)
+    simp only [resummarize, face, Tree.data, Tree.kids, hst.1, hst.2.1, hst.2.2.1, hst.2.2.2.1, hst.2.2.2.2.1,
+      ← hn.1, ← hn.2.1, ← hn.2.2.1, ← hn.2.2.2.1, ← hn.2.2.2.2.1, ← hn.2.2.2.2.2]
+
+theorem face_map_resummarizeLast (lang : Lang) : ∀ (l : List Tree), SummarizedL lang l → (resummarizeLast lang l).map face = l.map face
+  | [], _ => rfl
+  | [c], h => by
+    simp only [resummarizeLast, List.map_cons, List.map_nil]
+    rw [face_resummarize_summ lang c ((summarizedL_cons lang c []).mp h).1]
+  | c :: c' :: rest, h => by
+    simp only [resummarizeLast, List.map_cons]
+    have := face_map_resummarizeLast lang (c' :: rest) ((summarizedL_cons lang c _).mp h).2
+    simp only [List.map_cons] at this
+    rw [this]
+
+/-- `resummarize (.mk g.data (resummarizeLast g.kids))` — what the way back of `ts_subtree_compress`
+does to the first child — keeps the face of a summarized node. -/
+theorem face_pop (lang : Lang) (g : Tree) (h : Summarized lang g) :
+    face (resummarize lang (.mk g.data (resummarizeLast lang g.kids))) = face g := by
+  obtain ⟨d, kids⟩ := g
+  simp only [Tree.data, Tree.kids]
+  cases kids with
+  | nil => simp [resummarizeLast, resummarize]
+  | cons k rest =>
+    have hk := ((summarized_mk lang d (k :: rest)).mp h)
+    have hn := hk.2.1 (by simp)
+    have hmap := face_map_resummarizeLast lang (k :: rest) hk.2.2
+    cases hr : resummarizeLast lang (k :: rest) with
+    | nil => exact absurd hr (resummarizeLast_ne_nil lang _ (by simp))
+    | cons k' rest' =>
+      rw [hr] at hmap
+      have hsix := summarize_six_congr lang d k' k rest' rest hmap
+      unfold NodeOK at hn
+      have hst := summarize_static lang length_zero d (k' :: rest')
+      simp only [resummarize, face, Tree.data, Tree.kids, hst.1, hst.2.1, hst.2.2.1, hst.2.2.2.1, hst.2.2.2.2.1,
+        hsix.1, hsix.2.1, hsix.2.2.1, hsix.2.2.2.1, hsix.2.2.2.2.1, hsix.2.2.2.2.2,
+        ← hn.1, ← hn.2.1, ← hn.2.2.1, ← hn.2.2.2.1, ← hn.2.2.2.2.1, ← hn.2.2.2.2.2]
+      simp
+
+/-- **compressGo_face.**  Under `rotOK` (the nodes of the rotated symbol are hidden, non-extra, not
+MISSING and alias-free; the symbol is not an error symbol) `ts_subtree_compress` leaves the FACE of
+the tree unchanged — everything the summary of a parent reads — and keeps the hypothesis. -/
+theorem compressGo_face (lang : Lang) (sym : Nat) (he : isErrSym sym = false) : ∀ (i : Nat) (t : Tree), Summarized lang t →
+    allSym lang sym t = true → t.data.symbol = sym →
+    face (compressGo lang sym i t) = face t ∧ allSym lang sym (compressGo lang sym i t) = true ∧
+      (compressGo lang sym i t).data.symbol = sym
+  | 0, t, _, ha, hs => ⟨rfl, ha, hs⟩
+  | i + 1, .mk d kids, h, ha, hs => by
+    unfold compressGo
+    split
+    · exact ⟨rfl, ha, hs⟩
+    · cases kids with
+      | nil => exact ⟨rfl, ha, hs⟩
+      | cons c ts =>
+        obtain ⟨cd, ckids⟩ := c
+        simp only
+        split
+        · exact ⟨rfl, ha, hs⟩
+        · rename_i hcc
+          cases ckids with
+          | nil => exact ⟨rfl, ha, hs⟩
+          | cons g cs =>
+            obtain ⟨gd, gkids⟩ := g
+            simp only
+            split
+            · exact ⟨rfl, ha, hs⟩
+            · rename_i hgc
+              cases hgl : gkids.getLast? with
+              | none => exact ⟨rfl, ha, hs⟩
+              | some gp =>
+                simp only
+                -- the conditions of the rotation
+                simp only [Bool.or_eq_true, decide_eq_true_eq, bne_iff_ne, ne_eq, not_or, Decidable.not_not, List.length_cons] at hcc hgc
+                have hcsym : cd.symbol = sym := hcc.2
+                have hgsym : gd.symbol = sym := hgc.2
+                have hgne : gkids ≠ [] := by intro h0; subst h0; simp at hgl
+                -- summaries
+                have hT := (summarized_mk lang _ _).mp h
+                have hC := (summarized_mk lang _ _).mp ((summarizedL_cons lang _ _).mp hT.2.2).1
+                have hG := (summarized_mk lang _ _).mp ((summarizedL_cons lang _ _).mp hC.2.2).1
+                have hts := ((summarizedL_cons lang _ _).mp hT.2.2).2
+                have hcs := ((summarizedL_cons lang _ _).mp hC.2.2).2
+                have hgp := summarizedL_getLast lang gkids gp hG.2.2 hgl
+                have hchild : Summarized lang (resummarize lang (.mk cd (gp :: cs))) :=
+                  summarized_resummarize lang cd _ ((summarizedL_cons lang _ _).mpr ⟨hgp, hcs⟩) (by intro h0; simp at h0)
+                have hgrand : Summarized lang (resummarize lang (.mk gd (gkids.dropLast ++ [resummarize lang (.mk cd (gp :: cs))]))) :=
+                  summarized_resummarize lang gd _
+                    ((summarizedL_append lang _ _).mpr ⟨summarizedL_dropLast lang _ hG.2.2,
+                      (summarizedL_cons lang _ _).mpr ⟨hchild, summarizedL_nil lang⟩⟩) (by intro h0; simp at h0)
+                -- the hypothesis on the nodes involved
+                simp only [allSym_mk, allSymL_cons, Bool.and_eq_true, Bool.or_eq_true, bne_iff_ne, ne_eq, Tree.data, List.isEmpty_cons,
+                  Bool.false_eq_true, or_false] at ha hs
+                obtain ⟨hrd, ⟨⟨hrc, ⟨⟨hrg, hags⟩, hacs⟩⟩, hats⟩⟩ := ha
+                have hrc' : rotP lang cd = true := by rcases hrc with h1 | h1; exact absurd hcsym h1; exact h1
+                have hrg' : rotP lang gd = true := by
+                  rcases hrg with h1 | h1
+                  · rcases h1 with h2 | h2
+                    · exact absurd hgsym h2
+                    · exact absurd (by simpa using h2) hgne
+                  · exact h1
+                obtain ⟨hagd, hagp⟩ := allSymL_dropLast lang sym gkids gp hgl hags
+                have haC' : allSym lang sym (resummarize lang (.mk cd (gp :: cs))) = true := by
+                  rw [allSym_resummarize, allSym_mk]
+                  simp [hrc', allSymL_cons, hagp, hacs]
+                have haG' : allSym lang sym (resummarize lang (.mk gd (gkids.dropLast ++ [resummarize lang (.mk cd (gp :: cs))]))) = true := by
+                  rw [allSym_resummarize, allSym_mk, allSymL_append]
+                  simp [hrg', hagd, allSymL_cons, haC', allSymL]
+                have hG'sym : (resummarize lang (.mk gd (gkids.dropLast ++ [resummarize lang (.mk cd (gp :: cs))]))).data.symbol = sym := by
+                  cases hdl : gkids.dropLast ++ [resummarize lang (.mk cd (gp :: cs))] with
+                  | nil => simp at hdl
+                  | cons a b => rw [(resummarize_data lang gd a b).1, (summarize_static lang length_zero gd (a :: b)).1]; exact hgsym
+                -- the face of G' is the face of C
+                have hrot := rotation_sums lang sym cd gd gkids cs gp hcsym hgsym he hrc' hrg' hgl hgne (hG.2.1 hgne) (hC.2.1 (by simp))
+                simp only at hrot
+                obtain ⟨hcv, hcx, hcm, _⟩ := rotP_parts lang cd hrc'
+                obtain ⟨hgv, hgx, hgm, _⟩ := rotP_parts lang gd hrg'
+                have hlv : leaves (resummarize lang (.mk gd (gkids.dropLast ++ [resummarize lang (.mk cd (gp :: cs))]))) =
+                    leaves (.mk cd (.mk gd gkids :: cs)) := by
+                  rw [leaves_resummarize, leaves_node _ _ (by simp), leavesL_append]
+                  simp only [leavesL, List.append_nil]
+                  rw [leaves_resummarize, leaves_node _ _ (by simp), leaves_node _ _ (by simp)]
+                  simp only [leavesL]
+                  rw [leaves_node _ _ hgne, ← List.append_assoc]
+                  congr 1
+                  have hdl := dropLast_append_getLast gkids gp hgl
+                  conv => rhs; rw [← hdl]
+                  rw [leavesL_append]; simp [leavesL]
+                have hext := sized_same_leaves (.mk cd (.mk gd gkids :: cs)) _ (sized_of_summarized lang _ ((summarizedL_cons lang _ _).mp hT.2.2).1)
+                  (sized_of_summarized lang _ hgrand) hlv
+                simp only [Tree.data] at hext
+                have hfaceG' : face (resummarize lang (.mk gd (gkids.dropLast ++ [resummarize lang (.mk cd (gp :: cs))]))) =
+                    face (.mk cd (.mk gd gkids :: cs)) := by
+                  have hk' : (resummarize lang (.mk gd (gkids.dropLast ++ [resummarize lang (.mk cd (gp :: cs))]))).kids.length ≠ 0 := by
+                    rw [resummarize_kids]; simp [Tree.kids]
+                  have hstat : ∀ x, (resummarize lang (.mk gd x)).data.symbol = gd.symbol ∧ (resummarize lang (.mk gd x)).data.extra = gd.extra ∧
+                      (resummarize lang (.mk gd x)).data.visible = gd.visible ∧ (resummarize lang (.mk gd x)).data.isMissing = gd.isMissing := by
+                    intro x
+                    cases x with
+                    | nil => simp [resummarize, Tree.data]
+                    | cons a b =>
+                      have := summarize_static lang length_zero gd (a :: b)
+                      simp only [resummarize, Tree.data]
+                      exact ⟨this.1, this.2.1, this.2.2.1, this.2.2.2.2.1⟩
+                  have hs4 := hstat (gkids.dropLast ++ [resummarize lang (.mk cd (gp :: cs))])
+                  simp only [face, Tree.data, Tree.kids, hext.1, hext.2, hs4.1, hs4.2.1, hs4.2.2.1, hs4.2.2.2, hrot.1, hrot.2.1, hrot.2.2.1, hrot.2.2.2,
+                    hgsym, hcsym, hgx, hcx, hgv, hcv, hgm, hcm, Bool.false_and, List.length_cons]
+                  simp [hk']
+                -- the recursive call
+                have ih := compressGo_face lang sym he i _ hgrand haG' hG'sym
+                have ihs := compressGo_summarized lang sym i _ hgrand
+                generalize compressGo lang sym i (resummarize lang (.mk gd (gkids.dropLast ++ [resummarize lang (.mk cd (gp :: cs))]))) = g2 at ih ihs
+                have hg3f : face (resummarize lang (.mk g2.data (resummarizeLast lang g2.kids))) = face (.mk cd (.mk gd gkids :: cs)) := by
+                  rw [face_pop lang g2 ihs, ih.1, hfaceG']
+                have hg3a : allSym lang sym (resummarize lang (.mk g2.data (resummarizeLast lang g2.kids))) = true := by
+                  rw [allSym_resummarize, allSym_mk, allSymL_resummarizeLast]
+                  have := ih.2.1
+                  obtain ⟨g2d, g2k⟩ := g2
+                  rw [allSym_mk] at this
+                  simp only [Tree.data, Tree.kids]
+                  cases g2k with
+                  | nil => simpa [resummarizeLast] using this
+                  | cons a b =>
+                    have hne := resummarizeLast_ne_nil lang (a :: b) (by simp)
+                    cases hr : resummarizeLast lang (a :: b) with
+                    | nil => exact absurd hr hne
+                    | cons a' b' => simpa using this
+                -- the tree itself
+                have hmap : (resummarize lang (.mk g2.data (resummarizeLast lang g2.kids)) :: ts).map face = (Tree.mk cd (.mk gd gkids :: cs) :: ts).map face := by
+                  simp only [List.map_cons, hg3f]
+                have hsix := summarize_six_congr lang d _ _ ts ts hmap
+                have hn := hT.2.1 (by simp)
+                unfold NodeOK at hn
+                have hst := summarize_static lang length_zero d (resummarize lang (.mk g2.data (resummarizeLast lang g2.kids)) :: ts)
+                refine ⟨?_, ?_, ?_⟩
+                · simp only [resummarize, face, Tree.data, Tree.kids, hst.1, hst.2.1, hst.2.2.1, hst.2.2.2.1, hst.2.2.2.2.1,
+                    hsix.1, hsix.2.1, hsix.2.2.1, hsix.2.2.2.1, hsix.2.2.2.2.1, hsix.2.2.2.2.2,
+                    ← hn.1, ← hn.2.1, ← hn.2.2.1, ← hn.2.2.2.1, ← hn.2.2.2.2.1, ← hn.2.2.2.2.2]
+                  simp
+                · rw [allSym_resummarize, allSym_mk, allSymL_cons]
+                  simp only [Bool.and_eq_true, Bool.or_eq_true, bne_iff_ne, ne_eq, List.isEmpty_cons, Bool.false_eq_true, or_false]
+                  exact ⟨hrd, hg3a, hats⟩
+                · simp only [resummarize, Tree.data, hst.1]; exact hs
+
 end TsVerif.C02
